@@ -627,7 +627,9 @@ def compare(ctx: Ctx, rep, obs, req, ans):
         if ans["error"] != obs["exc"]:
             return bad(f"exception class: impl {obs['exc']} model {ans['error']}")
         mc = "hf" if ans["cause"] in ("hfLow", "hfLowAfter") else ans["cause"]
-        if mc != obs["cause"]:
+        if str(obs["cause"]).startswith("?"):
+            ctx.count("assertion_message_not_recognised")      # reworded message: the class is compared, which `require` fired cannot be told
+        elif mc != obs["cause"]:
             bad(f"cause: impl {obs['cause']} model {ans['cause']}")
         return
     if req["fn"] in ("maxBorrow", "maxWithdraw"):
